@@ -1407,7 +1407,7 @@ func TestVerifStorage(t *testing.T) {
 			runOne(cs, "corpus")
 		}
 		r := vNewRand(vSeed()*1000003 + uint64(len(prop))*7 + uint64(prop[2]))
-		n := vN(260, 3000)
+		n := vN(220, 3000)
 		maxActs := 34
 		if vTier() == "thorough" {
 			maxActs = 60
@@ -1421,7 +1421,7 @@ func TestVerifStorage(t *testing.T) {
 		}
 	}
 	// several small case files: the runner evaluates them in parallel
-	const chunk = 70
+	const chunk = 35
 	for i, k := 0, 0; i < len(coq); i, k = i+chunk, k+1 {
 		j := i + chunk
 		if j > len(coq) {
